@@ -154,10 +154,11 @@ def main(argv=None):
     # ---- verdicts ---------------------------------------------------------------------------------------
     known = load_known()
     violations, known_hits, unconfirmed, inconclusive, errors, mismatches = [], [], [], [], [], []
-    os.makedirs(os.path.join(ROOT, "replays"), exist_ok=True)
-    for fn in os.listdir(os.path.join(ROOT, "replays")):
+    rpdir = os.environ.get("VERIF_REPLAY_DIR") or os.path.join(ROOT, "replays")
+    os.makedirs(rpdir, exist_ok=True)
+    for fn in os.listdir(rpdir):
         if fn.startswith(prop + "-"):
-            os.remove(os.path.join(ROOT, "replays", fn))
+            os.remove(os.path.join(rpdir, fn))
     for i in ids:
         r = results[i]
         if "error" in r:
@@ -204,7 +205,7 @@ def main(argv=None):
             print(e)
     vio_paths = []
     for n, (i, c) in enumerate(violations):
-        path = os.path.join(ROOT, "replays", "%s-%d.json" % (prop, n))
+        path = os.path.join(rpdir, "%s-%d.json" % (prop, n))
         with open(path, "w") as f:
             json.dump(dict(property=prop, tier=a.tier, seed=a.seed, obligation=i, facet=c["facet"], model=c["model"],
                            notes=c.get("notes"), replay=c.get("replay")), f, indent=1)
@@ -297,8 +298,9 @@ def write_evidence(prop, a, obs, results, violations, known_hits, unconfirmed, i
             "z3 4.x/5.x decides the verification conditions; unknown/timeouts are reported as inconclusive",
         ] + assumptions,
     )
-    os.makedirs(os.path.join(ROOT, "evidence"), exist_ok=True)
-    with open(os.path.join(ROOT, "evidence", "%s.json" % prop), "w") as f:
+    evdir = os.environ.get("VERIF_EVIDENCE_DIR") or os.path.join(ROOT, "evidence")
+    os.makedirs(evdir, exist_ok=True)
+    with open(os.path.join(evdir, "%s.json" % prop), "w") as f:
         json.dump(ev, f, indent=1, default=str)
 
 
